@@ -172,7 +172,7 @@ Definition sop_ok (o : sop) : Prop :=
   end.
 
 Definition fresh_env : env :=
-  {| e_acts := []; e_disk := empty_disk; e_fault := None; e_m := zero_metrics |}.
+  {| e_acts := []; e_disk := empty_disk; e_fault := None; e_fx := fx_none; e_m := zero_metrics |}.
 
 (* the initial Open on an empty directory *)
 Definition initial (c : cfg) : option sstate :=
